@@ -83,7 +83,14 @@ def call_spec(I, fi, env):
             if len(d) and p in params[len(params) - len(d):]:
                 continue
             raise OutOfReach("clause %s needs %s which is not available here" % (fi.qualname, p))
-    return I.call_function(fi, [], kwargs, top=True, spec=True)
+    try:
+        return I.call_function(fi, [], kwargs, top=True, spec=True)
+    except PyRaise as e:
+        raise ContractError("contract clause %s raised %s: %s" % (fi.qualname, e.name, e.msg))
+
+
+class ContractError(Exception):
+    """A clause of a side-car raised: an error of the contract text, never a verdict about the code."""
 
 
 def eval_clause(I, contract, clause, env):
